@@ -3,6 +3,7 @@ package main
 import (
 	"context"
 	"fmt"
+	"runtime"
 	"sort"
 	"strings"
 	"time"
@@ -226,6 +227,7 @@ func c09(c *ev.Ctx) {
 			}
 		}
 	}
+	c09WorkAfterCancel(c)
 	// finite scripts under a live context are unaffected
 	for fi, f := range c09Finite {
 		for _, noOpt := range []bool{false, true} {
@@ -282,4 +284,85 @@ func apiName(run bool) string {
 		return "Run"
 	}
 	return "Execute"
+}
+
+// c09HeavyLoops spin while large values are live - on the stack (the collection a foreach
+// iterates over), in variables, as arguments of the running function.
+var c09HeavyLoops = []struct{ name, script string }{
+	{"foreach-over-big-array", `a = 1..100000; b = [a, a, a, a, a, a, a, a]; foreach x in b { while (true) { y = 1; } }`},
+	{"foreach-over-big-array-in-function", `function spin(v) { foreach x in v { while (true) { y = 1; } } return 0; } a = 1..100000; return spin([a, a, a, a, a, a, a, a]);`},
+	{"nested-foreach-over-big-arrays", `a = 1..100000; b = [a, a, a, a]; foreach x in b { foreach y in x { while (true) { z = 1; } } }`},
+	{"big-hash-on-the-stack", `a = 1..100000; h = {"p": a, "q": a, "r": a, "s": a}; foreach k, v1 in h { while (true) { z = 1; } }`},
+	{"big-values-in-variables-only", `a = 1..100000; b = [a, a, a, a, a, a, a, a]; while (true) { y = 1; }`},
+	{"big-argument-of-spinning-call", `function spin(v, w) { while (true) { y = 1; } return 0; } a = 1..100000; return spin([a, a, a, a, a, a, a, a], a);`},
+}
+
+// c09AllocBound: bytes the engine may allocate between the cancellation and its return.
+// Work after cancellation is judged in logical units - instructions (above) and allocated
+// bytes (here) - never in wall-clock time; the values that are live hold 4-6 MB of
+// integers, printing them once would allocate well over this bound.
+const c09AllocBound = 4 << 20
+
+func c09WorkAfterCancel(c *ev.Ctx) {
+	var maxSeen uint64
+	for li, lp := range c09HeavyLoops {
+		for _, k := range []int64{200, 2000, 30000} {
+			for _, noOpt := range []bool{false, true} {
+				for _, run := range []bool{false, true} {
+					id := fmt.Sprintf("work-after-cancel/%s/%d/%v/%v", lp.name, k, noOpt, run)
+					if !c.Want(id) {
+						continue
+					}
+					var ctx context.Context
+					var cancel context.CancelFunc
+					if (li+int(k))%2 == 0 {
+						ctx, cancel = context.WithCancel(context.Background())
+					} else {
+						ctx, cancel = context.WithTimeout(context.Background(), time.Hour)
+					}
+					evr, err := eng.New(lp.script, eng.Options{Ctx: ctx, NoOptimize: noOpt, Budget: k + c09Bound + 10})
+					if err != nil {
+						cancel()
+						c.Violation(id, "prepare", map[string]interface{}{"summary": "Prepare failed: " + err.Error(), "script": lp.script})
+						continue
+					}
+					var atCancel uint64
+					cancelled := false
+					evr.OnStep = func(m *vm.VM, ip int, op code.Opcode) error {
+						if !cancelled && evr.Steps() > k {
+							cancelled = true
+							var ms runtime.MemStats
+							runtime.ReadMemStats(&ms)
+							atCancel = ms.TotalAlloc
+							cancel()
+						}
+						return nil
+					}
+					var callErr error
+					if run {
+						_, callErr, _, _ = evr.RunBool(nil)
+					} else {
+						callErr = evr.Exec(nil).Err
+					}
+					var ms runtime.MemStats
+					runtime.ReadMemStats(&ms)
+					cancel()
+					c.Case(id, true)
+					if !cancelled || callErr == nil {
+						c.Violation(id, "heavy loop not cancelled", map[string]interface{}{"summary": fmt.Sprintf("%s: cancelled=%v err=%v", lp.name, cancelled, callErr), "script": lp.script})
+						continue
+					}
+					delta := ms.TotalAlloc - atCancel
+					if delta > maxSeen {
+						maxSeen = delta
+					}
+					if delta > c09AllocBound {
+						c.Violation(id, "work after cancellation: "+lp.name, map[string]interface{}{
+							"summary": fmt.Sprintf("%s (%s, noopt=%v): after the context was cancelled at instruction %d the engine allocated %d bytes before it returned (bound %d): the return is delayed by work proportional to the values that happen to be live\n  script: %s", lp.name, apiName(run), noOpt, k, delta, c09AllocBound, lp.script), "script": lp.script})
+					}
+				}
+			}
+		}
+	}
+	c.Extra("max_bytes_allocated_after_cancel", maxSeen)
 }
